@@ -37,6 +37,13 @@ ARGS = [
     "*.txt", "empty", "z*.md", "B.MD", "sub/deep", "s?b", "e f.md", "g[1].md", "*/x.md", "sub/x.md", "other", "?.md", "sub/deep/w.md",
     "*/*", "./sub/./x.md", "ABS:sub", "d.markdown", "g*.md", "dir.md", "other/../sub/x.md", "su*", "*.MD", "nothere", "empty/*",
 ]
+# second family (cases E:i): redundant spellings of directories and files that overlap, and '**' globs with --recurse
+ARGS2 = [
+    "./sub", "sub/.", "sub/deep/..", "sub//deep", "./sub/x.md", "sub/./x.md", "sub/deep/../x.md", "./sub/deep", "./.", "sub/**/*.md", "**/*.md", "**/x.md",
+    "**/w.md", "sub/**", "**/deep/*.md", "./*.md", "./sub/*.md", "other/./n.md", "./other", "sub/deep/./w.md", "**/**/*.md", "sub", "sub/x.md", "sub/deep/w.md",
+    "other/x.md", "./a.md", "a.md", ".//a.md", "sub/deep/deeper/../w.md", "**",
+]
+N_E = 24000
 AES = [None, ".txt", ".md,.markdown", ".MD", ".md,.txt"]
 MODES = ["list", "scan", "fix", "api-list"]
 
@@ -60,16 +67,33 @@ def decode(i):
     return {"tree": tree, "args": args, "recurse": recurse, "ae": ae, "mode": mode}
 
 
+def decode_e(i):
+    from vf.prng import mix
+
+    r = PR(mix("C19E", i))
+    idx = sorted(set(r.below(len(ENTRIES)) for _ in range(r.randint(3, 9))))
+    tree = [ENTRIES[k] for k in idx]
+    for must in (["sub/x.md", "a.md"], ["sub/deep/w.md", "sub/x.md"], ["sub/deep/deeper/u.md", "sub/x.md", "other/x.md"])[i % 3]:
+        if must not in tree:
+            tree.append(must)
+    nargs = r.choice([1, 2, 2, 3])
+    args = [r.choice(ARGS2) if r.chance(0.85) else r.choice(ARGS) for _ in range(nargs)]
+    return {"tree": tree, "args": args, "recurse": r.chance(0.55), "ae": (r.choice(AES) if r.chance(0.15) else None), "mode": MODES[i % 4]}
+
+
 def plan(tier, seed, complete=False):
     if complete or tier == "thorough":
         idx = list(range(N_CASES))
+        eidx = list(range(N_E))
     else:
         from vf.prng import R, mix
 
-        idx = R(mix("C19", seed)).sample(N_CASES, 3000)
+        idx = R(mix("C19", seed)).sample(N_CASES, 2200)
+        eidx = R(mix("C19E", seed)).sample(N_E, 1400)
     return {
-        "items": [f"D:{i}" for i in idx],
-        "zones": {"(tree, arguments, flags, mode) cases": {"universe": N_CASES, "run": len(idx)}},
+        "items": [f"D:{i}" for i in idx] + [f"E:{i}" for i in eidx],
+        "zones": {"(tree, arguments, flags, mode) cases": {"universe": N_CASES, "run": len(idx)},
+                  "redundant path spellings / overlapping arguments / '**' globs cases": {"universe": N_E, "run": len(eidx)}},
         "exhaustive": False,
         "rule": "case i = a generated directory tree (2-9 entries over 3 levels: eligible/ineligible/upper-case extensions, names with spaces and glob characters, "
         "empty and nested directories) x 1-3 path arguments in any spelling (relative, ./, .., absolute, globs) x --recurse x --alternate-extensions x "
@@ -143,9 +167,11 @@ def run_items(items, job):
     for it in items:
         if isinstance(it, dict):
             key, ci = it["key"], int(str(it["case"]).split(":")[-1])
+            fam = str(it["case"]).split(":")[0] if ":" in str(it["case"]) else "D"
         else:
             key, ci = it, int(it.split(":")[1])
-        c = decode(ci)
+            fam = it.split(":")[0]
+        c = decode_e(ci) if fam == "E" else decode(ci)
         R.evals += 1
         sb.clear_files()
         for e in c["tree"]:
@@ -159,7 +185,7 @@ def run_items(items, job):
         flags = (["-r"] if c["recurse"] else []) + (["-ae", c["ae"]] if c["ae"] else [])
         mode = c["mode"]
         v = set()
-        detail = {"case": f"D:{ci}", **c, "model_error": err, "model_selects": sorted(os.path.relpath(p, sb.cwd) for p in want)}
+        detail = {"case": f"{fam}:{ci}", **c, "model_error": err, "model_selects": sorted(os.path.relpath(p, sb.cwd) for p in want)}
         got_paths = None
         rc = None
         if mode == "api-list":
